@@ -7,7 +7,7 @@ var ghostBuiltinNames = []string{
 	"seq", "seqOf", "bytesOf", "cat", "cat3", "cat4", "b1", "u16be", "sub", "slen", "sat", "mkseq", "seqEq", "seq0",
 	"sameSlice", "forallKey", "maxAlloc", "ssnap", "sliceSnap", "ssLen", "ssAt", "msnap", "mapSnap", "guardSnap", "guardVal", "guardSlice", "snapHas", "snapGet", "mapHas", "forall", "forallPairs", "forallGrid", "exists", "fresh", "arrayOf", "sameArray", "ite",
 	"evCount", "evHeld", "evIndex", "evArg", "evSlice", "evBytes", "evRet", "evTotal",
-	"holds", "holdsR", "closed", "ownsChan", "onceDone", "chanCap", "iterFresh", "sameMap", "isNilFunc", "closureIs", "closureVar", "closureVarN", "sameFunc", "dynType", "typeIs",
+	"holds", "holdsR", "closed", "ownsChan", "onceDone", "chanCap", "iterFresh", "sameMap", "isNilFunc", "closureIs", "closureVar", "closureVarN", "closureCaptures", "sameFunc", "dynType", "typeIs",
 	"strBytesEq", "runeOK", "validUTF8", "utf8norm", "utf8normOf", "ovfFree", "unchanged", "fnCode", "readyAt",
 	"chainHas", "errChain", "retryOf", "isRetryErr", "ghostTrue", "splitOf", "joinedLen", "hasByte",
 }
@@ -166,6 +166,10 @@ func closureIs[F any](f F, name string) bool { return true }
 
 // closureVar[T](f, "name", i): the i-th captured variable (a pointer to its cell) of closure f of function name.
 func closureVar[T any, F any](f F, name string, i int) T { var z T; return z }
+
+// closureCaptures(f, "name", p): closure f of function name captures a variable that currently holds the pointer p
+// (whatever that variable is called).
+func closureCaptures[F any, T any](f F, name string, p *T) bool { return true }
 
 // closureVarN[T](f, "name", "v"): the captured variable named v (robust against changes of the capture list).
 func closureVarN[T any, F any](f F, name string, v string) T { var z T; return z }
